@@ -31,6 +31,9 @@
 mod table;
 mod vals;
 
+/// Miri mode (`--lite`), readable from the instance constructors
+pub static LITE: std::sync::atomic::AtomicBool = std::sync::atomic::AtomicBool::new(false);
+
 use std::fmt::Debug;
 use std::future::Future;
 use std::pin::Pin;
@@ -379,6 +382,7 @@ fn main() {
             "--list" => rig.list = true,
             "--exact" => rig.exact = true,
             "--lite" => {
+                LITE.store(true, Ordering::Relaxed);
                 rig.lite = true;
                 vals::LITE.store(true, Ordering::Relaxed);
             }
